@@ -134,6 +134,9 @@ type Exec struct {
 	wOther    map[interface{}]bool
 	monitor   *lockMonitor
 	monitorOn bool
+	picks     map[string]uint64
+	qsites    bool
+	pcDirty   bool // assumptions were added without a feasibility check
 	lastModel *Model
 	minfo     map[*ssa.Function]*mergeInfo
 	noMerge   bool
@@ -188,6 +191,7 @@ func (ex *Exec) assume(c *Term) {
 		return
 	}
 	ex.pc = append(ex.pc, c)
+	ex.ts.Learn(c)
 	p := ex.sols[0]
 	if p.gen == ex.gens[0] {
 		func() {
@@ -222,6 +226,9 @@ func (ex *Exec) check(extra *Term, keep bool) Verdict {
 	if extra.IsFalse() {
 		return Unsat
 	}
+	if ex.qsites {
+		ex.counters["q@"+ex.where()]++
+	}
 	var ext []*Term
 	if !extra.IsTrue() {
 		ext = []*Term{extra}
@@ -241,6 +248,20 @@ func (ex *Exec) check(extra *Term, keep bool) Verdict {
 	return v
 }
 
+// ensureFeasible ends the path if lazily added assumptions made the path condition unsatisfiable.
+func (ex *Exec) ensureFeasible() {
+	if !ex.pcDirty {
+		return
+	}
+	ex.pcDirty = false
+	switch ex.check(ex.ts.True, false) {
+	case Unsat:
+		panic(pathEnd{kind: endInfeasible, msg: "assumptions"})
+	case Unknown:
+		ex.incon = append(ex.incon, "assumption feasibility unknown: "+ex.where())
+	}
+}
+
 func (ex *Exec) replaying() bool { return ex.dpos < len(ex.prefix) }
 
 func (ex *Exec) pushFork(d Decision) {
@@ -252,6 +273,9 @@ func (ex *Exec) pushFork(d Decision) {
 
 // branch decides a symbolic boolean; forks when both sides are feasible.
 func (ex *Exec) branch(c *Term) bool {
+	if k, ok := ex.ts.known(c); ok && !ex.replaying() {
+		c = k
+	}
 	if c.IsConst() {
 		return c.IsTrue()
 	}
@@ -267,6 +291,7 @@ func (ex *Exec) branch(c *Term) bool {
 		return false
 	}
 	ex.dpos++
+	ex.ensureFeasible()
 	vt := ex.check(c, false)
 	var vf Verdict
 	if vt == Unsat {
@@ -493,6 +518,7 @@ func (ex *Exec) assertTerm(label string, c *Term, kind string) {
 		ex.counters["skipped-after-finding"]++
 		return
 	}
+	ex.ensureFeasible()
 	nc := ex.ts.BNot(c)
 	v := ex.check(nc, true)
 	switch v {
